@@ -486,6 +486,7 @@ def run_pathline(job):
         # options on the same inputs first, its result discarded / the judged call itself with tighter tolerances
         form = tid % 4
         kw = {}
+        u_judged = None
         if form == 1:
             try:
                 pathlines.get_pathline(xf_arg, budgeted(u, [0]), L, lo, hi, a["max_strain"], regular_steps=a["steps"], method="RK23", rtol=0.2, atol=0.05 * float(np.max(hi - lo)))
@@ -499,22 +500,28 @@ def run_pathline(job):
             # velocity callable fails part-way through the integration (the client's own exception), then the judged
             # call - identical inputs, healthy callable.  A failed call must leave nothing behind.
             other = np.where(np.arange(3) == ih, 0.5 * (lo + hi) + 0.11 * (hi - lo), np.where(np.arange(3) == iv, 0.5 * (lo + hi) - 0.07 * (hi - lo), xf))
-            cnt = [0]
+            # ONE velocity callable object for the failing call and for the judged retry (what a client has whose data
+            # source was briefly unavailable): it fails after a few evaluations while `flaky_on` is set
+            cnt, flaky_on = [0], [True]
+            counted = budgeted(u, nev)
 
-            def failing(t, x):
+            def flaky(t, x):
                 cnt[0] += 1
-                if cnt[0] > 7:
+                if flaky_on[0] and cnt[0] > 7:
                     raise ClientFault("velocity callable failed")
-                return u(t, x)
+                return counted(t, x)
 
-            for args in ((other, budgeted(u, [0])), (xf_arg, failing)):
+            for args in ((other, budgeted(u, [0])), (xf_arg, flaky)):
                 try:
                     pathlines.get_pathline(args[0], args[1], L, lo, hi, a["max_strain"], regular_steps=a["steps"])
                 except BaseException as ex:  # noqa: BLE001 - neither call is judged
                     if isinstance(ex, (KeyboardInterrupt, SystemExit, MemoryError)):
                         raise
+            flaky_on[0] = False
+            nev[0] = 0
+            u_judged = flaky
         info["call_form"] = ("plain", "after-coarse-preview", "tight-tolerances", "after-a-failed-call")[form]
-        ts, pos = pathlines.get_pathline(xf_arg, budgeted(u, nev), L, lo, hi, a["max_strain"], regular_steps=a["steps"], **kw)
+        ts, pos = pathlines.get_pathline(xf_arg, u_judged or budgeted(u, nev), L, lo, hi, a["max_strain"], regular_steps=a["steps"], **kw)
     except NoReturn as ex:
         ev[0]["out"] = "NoReturn"
         info["exc"] = repr(ex)
